@@ -11,7 +11,7 @@ Inductive st := StartRecord | StartField | InField | InQuoted | QuoteInQuoted | 
 
 Record pst := mk { state : st; pend : list ch (* reversed *); acc : list (list ch) (* reversed *) }.
 
-Definition save (s : pst) (next : st) : pst := mk next [] (rev (pend s) :: acc s).
+Definition save (s : pst) (next : st) : pst := mk next [] (frev (pend s) :: acc s).
 Definition add (s : pst) (c : ch) (next : st) : pst := mk next (c :: pend s) (acc s).
 Definition goto (s : pst) (next : st) : pst := mk next (pend s) (acc s).
 
@@ -63,9 +63,9 @@ Definition parse (line : list ch) : option (list (list ch)) :=
   let s := step (run init line) None in
   match state s with
   | Err => None
-  | StartRecord => Some (rev (acc s))
-  | InQuoted => Some (rev (rev (pend s) :: acc s))
-  | _ => Some (rev (match pend s with [] => acc s | _ => rev (pend s) :: acc s end))
+  | StartRecord => Some (frev (acc s))
+  | InQuoted => Some (frev (frev (pend s) :: acc s))
+  | _ => Some (frev (match pend s with [] => acc s | _ => frev (pend s) :: acc s end))
   end.
 
 (* writer, QUOTE_MINIMAL (csv.writer(f).writerow(fields) without the line terminator) *)
